@@ -364,3 +364,63 @@ Definition mmon_host_penalty (c : mcase) := per_host c pen_all.
 Definition mdiffs (l : list mcase) := bad_idx mdiff_case l.
 Definition mmons (l : list mcase) :=
   mon_idx [mmon_bounded; mmon_life_window; mmon_life_penalty; mmon_host_window; mmon_host_penalty] l.
+
+(* -------------------------------------------------------------------------------------
+   Burst stream (black box, real BucketManager): rounds on a fresh manager pre-filled with [pre]
+   hosts, then bursts of k goroutines leaving a spin barrier together, each calling Wait /
+   OnSuccess / AdjustOnFailure for a DISTINCT fresh host; observable = table size at quiescence
+   after every burst.  getBucket being atomic, every interleaving of a burst is a list of LGet
+   labels, for which table_bounded_lemma gives size <= max(maxBuckets, 1); the size itself does not
+   depend on the eviction choices. *)
+Inductive uburst := UB (k size : int).
+Inductive uround := UR (pre : int) (bursts : list uburst).
+Record ucase := UC0 { u_max : Z; u_rounds : list uround }.
+Definition UC (mx : int) (rs : list uround) : ucase := UC0 (iz mx) rs.
+
+Definition hostn (i : nat) : string := String (Ascii.ascii_of_nat (S i)) EmptyString.
+
+(* some key the scan can end with *)
+Definition pick_victim (tab : list mentry) : string :=
+  let m := lfu_min tab in
+  match List.find (fun e => me_usage e =? m) tab with
+  | Some e => if m <? MAXINT32 then me_host e else ""
+  | None => ""
+  end.
+
+Fixpoint fresh_gets (n : nat) (from : nat) (m : manager) : option manager :=
+  match n with
+  | O => Some m
+  | S n' =>
+      match get (hostn from) 0 (pick_victim (mg_tab m)) m with
+      | Some m' => fresh_gets n' (S from) m'
+      | None => None
+      end
+  end.
+
+Fixpoint udiff_bursts (m : manager) (from : nat) (l : list uburst) : bool :=
+  match l with
+  | [] => false
+  | UB k size :: r =>
+      let n := Z.to_nat (iz k) in
+      match fresh_gets n from m with
+      | None => true
+      | Some m' => negb (tab_len (mg_tab m') =? iz size) || udiff_bursts m' (from + n) r
+      end
+  end.
+
+Definition udiff_round (mx : Z) (r : uround) : bool :=
+  let '(UR pre bs) := r in
+  let n := Z.to_nat (iz pre) in
+  match fresh_gets n 0 (new_manager mx 1 1) with
+  | None => true
+  | Some m => udiff_bursts m n bs
+  end.
+
+Definition udiff_case (c : ucase) : bool := existsb (udiff_round (u_max c)) (u_rounds c).
+
+(* 0: table_bounded, on the observed sizes only *)
+Definition umon_bounded (c : ucase) : bool :=
+  forallb (fun '(UR _ bs) => forallb (fun '(UB _ size) => iz size <=? Z.max (u_max c) 1) bs) (u_rounds c).
+
+Definition udiffs (l : list ucase) := bad_idx udiff_case l.
+Definition umons (l : list ucase) := mon_idx [umon_bounded] l.
